@@ -1,7 +1,7 @@
 (* Pinned statements of the C09 theorems (must match Properties/C09.v). *)
 From Coq Require Import ZArith List Bool.
 Import ListNotations.
-Require Import TC.Server.Actor TC.Server.Linear TC.Limiter.Bucket TC.Limiter.BurstExact.
+Require Import TC.Server.Actor TC.Server.Linear TC.Limiter.Bucket TC.Limiter.KeyStep TC.Limiter.BurstExact.
 Require Import TC.Properties.C09.
 
 Check C09_linearizable :
@@ -28,3 +28,8 @@ Check C09_real_time :
 Check C09_burst_exact :
   forall (E B : Z) (t : Z) (n : nat), (1 <= E)%Z -> (0 <= B)%Z ->
   Z.of_nat (length (filter (fun d => d) (bdecide E B (full E B t) (repeat (1%Z, t) n)))) = Z.min (Z.of_nat n) B.
+Check C09_refuted_by_stamp_disorder :
+  exists E B t d, (1 <= E)%Z /\ (0 < d)%Z /\
+    let r1 := kstep E B None 1 (t + d) in
+    let r2 := kstep E B (fst r1) 1 t in
+    allowed (snd r1) = true /\ remaining (snd r1) = 1%Z /\ allowed (snd r2) = false /\ retry_after (snd r2) = d.
